@@ -1,6 +1,6 @@
 (* ParseRun.v — run commands of the C05 family (drivers only). *)
 From Coq Require Import String.
-From Cedar Require Export Codec Unescape Print Lexer Parse PrintToks.
+From Cedar Require Export Codec Unescape Print Lexer Parse PrintToks ParsePolicy.
 Open Scope string_scope.
 
 Definition e_ures {A} (f : A -> sexp) (r : ures A) : sexp :=
@@ -106,10 +106,54 @@ Definition run_c05_toks_check (args : list sexp) : sexp :=
   | _ => bad_input
   end.
 
+(* ---- policies ---- *)
+Definition e_eref (r : eref) : sexp := match r with RefSlot => SY "slot" | RefUid u => e_uid u end.
+Definition e_prc (c : prconstraint) : sexp :=
+  match c with
+  | CAny => SY "any"
+  | CEq r => SL [SY "eq"; e_eref r]
+  | CIn r => SL [SY "in"; e_eref r]
+  | CIs t => SL [SY "is"; e_name t]
+  | CIsIn t r => SL [SY "isin"; e_name t; e_eref r]
+  end.
+Definition e_ac (c : aconstraint) : sexp :=
+  match c with
+  | AAny => SY "any"
+  | AEq u => SL [SY "eq"; e_uid u]
+  | AIn us => SL [SY "in"; SL (map e_uid us)]
+  end.
+Definition e_template (t : template) : sexp :=
+  SL [SY "template"; SS []; SL (map (fun kv => SL [SS (fst kv); SS (snd kv)]) (tannot t));
+      SY (match teffect t with Permit => "permit" | Forbid => "forbid" end);
+      e_prc (tprincipal t); e_ac (taction t); e_prc (tresource t);
+      match tbody t with None => SY "none" | Some e => SL [SY "some"; e_expr e] end].
+
+(* (c05_parse_policy <text>) / (c05_parse_policyset <text>) -> (ok ..) | reject | lexerr *)
+Definition run_c05_parse_policy (args : list sexp) : sexp :=
+  match args with
+  | [SS text] =>
+      match lex_text text with
+      | None => SY "lexerr"
+      | Some ts => match parse_policy_toks ts with Some t => e_tag "ok" [e_template t] | None => SY "reject" end
+      end
+  | _ => bad_input
+  end.
+Definition run_c05_parse_policyset (args : list sexp) : sexp :=
+  match args with
+  | [SS text] =>
+      match lex_text text with
+      | None => SY "lexerr"
+      | Some ts => match parse_policyset_toks ts with Some l => e_tag "ok" [SL (map e_template l)] | None => SY "reject" end
+      end
+  | _ => bad_input
+  end.
+
 Definition run_c05 (cmd : string) (args : list sexp) : option sexp :=
   if sym_eqb cmd "c05_escape" then Some (run_c05_escape args)
   else if sym_eqb cmd "c05_print_expr" then Some (run_c05_print_expr args)
   else if sym_eqb cmd "c05_print_template" then Some (run_c05_print_template args)
   else if sym_eqb cmd "c05_parse_expr" then Some (run_c05_parse_expr args)
   else if sym_eqb cmd "c05_toks_check" then Some (run_c05_toks_check args)
+  else if sym_eqb cmd "c05_parse_policy" then Some (run_c05_parse_policy args)
+  else if sym_eqb cmd "c05_parse_policyset" then Some (run_c05_parse_policyset args)
   else None.
